@@ -172,6 +172,22 @@ def mc_property(v, tier, seed, name, prof, fields=mc_suite.ALL_FIELDS, noids=Fal
                     if dx and dy and int(dx.group(1)) > int(dy.group(1)):
                         return (f"run {k}: BFS reports `{x['hdr'].split()[2]}` at depth {dx.group(1)}, but a state at depth {dy.group(1)} "
                                 f"already fails: {y['T'][0][:400]}")
+        # (d) a pending timer carries the delay its process asked for: every T(p,name,d) in an evaluated state has a `T:name:d` or
+        #     `O:name:d` action in a rule of p (pure model-checking scenarios: no snapshot timers with remaining times here)
+        asked = set()
+        for l in lines:
+            if l.startswith("rule "):
+                ws = l.split()
+                for a in ws[5:]:
+                    if a[:2] in ("T:", "O:") and a.count(":") == 2:
+                        asked.add((ws[1], a.split(":")[1], a.split(":")[2]))
+        for l in impl_out:
+            if l.startswith("E "):
+                em = re.search(r" E\[(.*?)\] A\[", l)
+                for pp, nm_, d in re.findall(r"T\(([^,()]+),([^,()]+),([^,()]+)\)", em.group(1) if em else ""):
+                    if (pp, nm_, d) not in asked:
+                        return (f"a pending timer of {pp} named {nm_} is recorded with delay {d} (half units; x… = raw bits), but no rule of {pp} "
+                                f"sets {nm_} with that delay: the checker orders timers by a delay the program never asked for")
         # (b) does the implementation's own exploration deviate from the reference semantics on this scenario?
         ls = lines if "refenum" in lines else ["refenum"] + lines
         i, m = run_pair("mc", [mc_suite.block("j", ls)], jobs=1, stall=20)
@@ -185,6 +201,9 @@ def mc_property(v, tier, seed, name, prof, fields=mc_suite.ALL_FIELDS, noids=Fal
                 if P != y["R"]:
                     return (f"run {k}: the implementation's evaluated state set differs from the reference semantics "
                             f"(missing {sorted(y['R'] - P)[:1]}, extra {sorted(P - y['R'])[:1]})")
+            elif y["rres"] == "ok" and "result=panic" in x["hdr"] and k < len(rmod) and "result=panic" not in rmod[k]["hdr"]:
+                return (f"run {k}: the implementation panics (an internal assertion fails) on a legal API sequence; the reference semantics "
+                        f"and the model explore it without failure ({len(y['R'])} process-visible states)")
             elif y["rres"] == "ok" and "result=err" in x["hdr"]:
                 return f"run {k}: the implementation reports `{x['hdr'].split()[2]}` but no reference execution fails"
             elif y["rres"] == "fail" and "result=ok" in x["hdr"]:
@@ -196,6 +215,99 @@ def mc_property(v, tier, seed, name, prof, fields=mc_suite.ALL_FIELDS, noids=Fal
     if cross:
         n += judge_cross(v, scen, impl, model, name, "strategies / cache modes", d1_text)
     return n
+
+
+def rand_cache_probe(v, tier, seed, name="rand_cache_modes"):
+    """C11, implementation against itself: processes whose handlers store `ctx.rand()` draws in their outbox.  Under the model
+    checker the draws are seeded from the state, so states the checker treats as equal must still have identical futures: the
+    runs with the Full, Partial and Disabled cache (DFS and BFS) must agree on Ok/Err and on the set of evaluated states.
+    (The Lean model has no random draws under the model checker, so these programs are not compared with it.)"""
+    from .common import run_blocks, VH, JOBS, chunks, STALL_S
+    from concurrent.futures import ThreadPoolExecutor
+    rng = random.Random(seed * 104729 + 11)
+    n = 150 if tier == "quick" else 3000
+    combos = [("dfs", "full"), ("dfs", "disabled"), ("bfs", "partial"), ("bfs", "disabled")]
+    scen = []
+    for i in range(n):
+        base = mc_suite.gen_scenario(rng, mc_suite.profile(terminating=True, two_runs=0, staged=0, p_fault=0.4, identical_msgs=0.4, depth=(2, 4),
+                                                            nodes=(1, 2), procs=(1, 3)))
+        base = [l + (f" R:m{rng.randint(0, 2)}" if l.startswith("rule") and rng.random() < 0.5 else "") for l in base]
+        # state-based predicates only: depth-based pruning makes the evaluated set depend on the path by design
+        base = [re.sub(r"prune=\S+", "prune=none", l) if l.startswith("run") else l for l in base]
+        scen.append((f"r{i}", with_all_combos(base, combos)))
+    for i in range(n // 3):
+        # merge template: a receiver that ignores the payload reaches the same state after `deliver` (one step) and after
+        # `corrupt, deliver` (two steps); a handler that runs later in that state draws random numbers
+        k = rng.randint(1, 2)
+        lines = ["node n0", "node n1", "proc p0 n0"] + [f"proc p{j} n1" for j in range(1, k + 1)]
+        lines.append("rule p0 0 L:m0 1 " + " ".join(f'S:m1:="q{j}":p{j}' for j in range(1, k + 1)))
+        for j in range(1, k + 1):
+            later = rng.choice(["timer", "msg"])
+            if later == "timer":
+                lines += [f"rule p{j} 0 M:m1 1 T:t1:{rng.randint(1, 2)}", f"rule p{j} 1 T:t1 2 R:m2" + rng.choice(["", " R:m3"])]
+            else:
+                lines += [f"rule p{j} 0 M:m1 1 S:m2:=a:p0", f"rule p{j} 1 M:m3 2 R:m2", f"rule p0 1 M:m2 1 S:m3:=b:p{j}"]
+        lines += ["cb net corrupt 1", "cb local p0 m0 =go", "run dfs full inv=none goal=noev prune=none collect=none"]
+        scen.append((f"rm{i}", with_all_combos(lines, combos)))
+    parts = chunks([mc_suite.block(nm, l) for nm, l in scen], JOBS)
+    impl = {}
+    with ThreadPoolExecutor(max_workers=JOBS) as ex:
+        for out, rc, err in ex.map(lambda part: run_blocks([VH, "mc"], part, STALL_S), parts):
+            impl.update(out)
+    nviol = ncmp = nrand = 0
+    for nm, lines in scen:
+        a = impl.get(nm, [])
+        if not a or any("capped" in l or "panic" in l or l.endswith("-timeout") for l in a):
+            continue
+        runs = mc_suite.split_runs(a)
+        kinds = [r["hdr"].split()[2].split(":")[0] for r in runs]
+        ncmp += 1
+        nrand += any(re.search(r"=[0-9a-f]{16}", l) for l in a)
+        bad = None
+        if len(set(kinds)) > 1:
+            bad = f"the runs disagree on Ok/Err: {[r['hdr'].split()[2] for r in runs]} for {combos}"
+        elif kinds and kinds[0] == "result=ok":
+            sets = [keyset(r) for r in runs]
+            for k in range(1, len(sets)):
+                if sets[k] != sets[0]:
+                    bad = (f"runs {combos[0]} and {combos[k]} evaluate different sets of states ({len(sets[0])} vs {len(sets[k])}); "
+                           f"e.g. {sorted(sets[0] ^ sets[k])[:1]}")
+                    break
+        if bad and nviol < 3:
+            v.violation(f"{name}-{nm}.txt", f"# property {v.pid}: states the checker treats as equal do not have identical futures when handlers use ctx.rand(): {bad}\n"
+                        f"# replay: /verif/check {v.pid} --replay <this file>\n" + "".join(l + "\n" for l in lines))
+        nviol += bool(bad)
+    v.coverage.setdefault(name, {}).update({"programs": ncmp, "programs_with_draws_in_states": nrand, "violations": nviol,
+        "rule": "implementation vs implementation: script processes that put ctx.rand() draws into their outbox, explored with dfs/bfs x "
+                "full/partial/disabled; Ok/Err and the evaluated state sets must agree"})
+    return nviol
+
+
+def gen_crash_then_heal(rng, tier):
+    """C14: crash a node in the callback, then undo the network part of the crash (`network().reset()`) and only
+    then let the processes send: messages from or to the crashed node must still be dropped unconditionally"""
+    out = []
+    n = 80 if tier == "quick" else 2000
+    for i in range(n):
+        base = mc_suite.gen_scenario(rng, mc_suite.profile(p_crash=1.0, nodes=(2, 3), procs=(2, 4), p_link=0.2, p_send=0.6, p_local=0.15,
+                                                            terminating=True, two_runs=0, staged=0, locals=(2, 4)))
+        lines, crashed = [], None
+        cbs = [l for l in base if l.startswith("cb ")]
+        if not any(l.startswith("cb crash") for l in cbs):
+            continue
+        # the crash first, then the healing operations, then everything else
+        crash = [l for l in cbs if l.startswith("cb crash")][:1]
+        node = crash[0].split()[2]
+        heal = ["cb net reset"]   # the only operation of McNetwork that undoes a disconnect
+        rest = [l for l in cbs if l not in crash]
+        for l in base:
+            if l.startswith("cb "):
+                continue
+            if l.startswith("run"):
+                lines += crash + heal + rest
+            lines.append(l)
+        out.append((f"ch{i}", ["refenum"] + lines))
+    return out
 
 
 def gen_crash_merge(rng, tier):
